@@ -40,8 +40,8 @@ func Main(c *run.Ctx) {
 		"(a) every query is translated 3 times, interleaved with other queries, sequentially and from 8 goroutines; (b) one LogQL plan object is executed 5 times with advancing windows and compared with fresh translations; " +
 		"distinct key = monitor × language × query shape")
 	c.Assume("two statements have the same meaning if they are byte-identical after the time-bound literals were aligned by using the same window, or if the reference interpreter returns the same rows for both on the same tables")
-	total := c.Pick(600, 20000)
-	per := c.Pick(300, 2500)
+	total := c.Pick(1200, 24000)
+	per := c.Pick(600, 3000)
 	c07.RunChildren(c, "C14", total, per)
 	c.Floor("queries translated repeatedly (determinism)", total/3, 0)
 	c.Floor("plans re-executed with advancing windows", total/4, 0)
